@@ -1,0 +1,58 @@
+//go:build verif
+
+package blockchain
+
+import (
+	"sync"
+	"sync/atomic"
+
+	"github.com/33cn/chain33/types"
+)
+
+// Add-only verification hook (never part of a normal build): gives an external
+// harness access to the push service with caller-supplied stores and PostService.
+
+// PushMaxSizeVerif is the size limit runTask passes to getPushData.
+const PushMaxSizeVerif = pushMaxSize
+
+// NewPushVerif builds a Push exactly like newpush does, except that the
+// PostService, the config and the post-fail sleep count are supplied by the caller.
+func NewPushVerif(commonStore CommonStore, seqStore SequenceStore, post PostService, cfg *types.Chain33Config, fail2Sleep int32) *Push {
+	service := &Push{store: commonStore,
+		sequenceStore:  seqStore,
+		tasks:          make(map[string]*pushNotify),
+		postService:    post,
+		cfg:            cfg,
+		postFail2Sleep: fail2Sleep,
+		postwg:         &sync.WaitGroup{},
+	}
+	service.init()
+	return service
+}
+
+// AddSubscriberVerif is addSubscriber.
+func (push *Push) AddSubscriberVerif(subscribe *types.PushSubscribeReq) error {
+	return push.addSubscriber(subscribe)
+}
+
+// GetPushDataVerif is getPushData.
+func (push *Push) GetPushDataVerif(subscribe *types.PushSubscribeReq, startSeq int64, seqCount, maxSize int) ([]byte, int64, error) {
+	return push.getPushData(subscribe, startSeq, seqCount, maxSize)
+}
+
+// TaskInfoVerif reports whether a task entry exists for name, its status, its
+// post-fail sleep counter and the number of queued sequence notifications.
+func (push *Push) TaskInfoVerif(name string) (exists bool, status int32, sleep int32, queued int) {
+	push.mu.Lock()
+	defer push.mu.Unlock()
+	notify := push.tasks[string(calcPushKey(name))]
+	if notify == nil {
+		return false, 0, 0, 0
+	}
+	return true, atomic.LoadInt32(&notify.status), atomic.LoadInt32(&notify.postFail2Sleep), len(notify.seqUpdateChan)
+}
+
+// PushKeysVerif returns the store keys of a subscription record and of its last pushed sequence.
+func PushKeysVerif(name string) (pushKey, lastSeqKey []byte) {
+	return calcPushKey(name), calcLastPushSeqNumKey(name)
+}
